@@ -831,6 +831,10 @@ class Interp:
         if nm == 'ldexp':
             if isinstance(args[0], float) and not is_sym(args[1]): return [(st, math.ldexp(args[0], sgn(args[1], 32)))]
             raise Unsupported('symbolic ldexp')
+        if nm.startswith('_ZNSt13random_device'):
+            # std::random_device: _M_init/_M_fini no-ops, _M_getval returns an arbitrary seed (0): every draw the checks care about goes through the intercepted Sample_Uniform
+            st.events.append(('random_device', nm))
+            return [(st, 0 if 'getval' in nm else None)]
         r = s.libstdcxx(nm, args, st)
         if r is not None: return r
         st.events.append(('unmodelled', nm))
